@@ -11,7 +11,7 @@ GenScen == IF ScanSubsets
 
 \* Larger, structured layouts (sampled, -seed): sources and prior outputs of NBigMin..NBigMax chunks over KBig identities
 \* with sizes 1..4 units, foreign items in between; rotations, reversals and interleavings make long cycles and deep chains likely.
-CONSTANTS NBig, KBig, NBigMin, NBigMax
+CONSTANTS NBig, KBig, NBigMin, NBigMax, Select
 BigIds == 1..KBig
 RandSeq(S, n) == [i \in 1..n |-> RandomElement(S)]
 Rotate(q, k) == [i \in 1..Len(q) |-> q[((i + k - 1) % Len(q)) + 1]]
@@ -27,7 +27,21 @@ BigOne(i) ==
                 [] OTHER -> [j \in 1..n |-> IF j % 2 = 0 THEN src[j] ELSE src[((j * 7) % n) + 1]]
       prior == [j \in 1..Len(base) |-> IF RandomElement(1..6) = 1 THEN <<0, RandomElement(1..3)>> ELSE <<base[j], 0>>]
   IN [sz |-> szs, src |-> src, prior |-> prior, seeds |-> IF i % 7 = 0 THEN <<RandSeq(BigIds, 3)>> ELSE <<>>, inplace |-> TRUE, big |-> i]
-BigScen == {BigOne(i) : i \in 1..NBig}
+\* Heavy duplication: one identity d held by the prior output at some 32-52 places (a sparse image's zero chunk) while the source wants it
+\* at 1-3 places; the rest of the prior output is the source with a quarter of its chunks replaced by junk, so most wanted copies are in place.
+DupOne(i) ==
+  LET szs == RandSeq(1..3, KBig)
+      d == RandomElement(BigIds)
+      n == RandomElement(4..8)
+      P == {RandomElement(1..n), RandomElement(1..n)} \cup (IF RandomElement(1..3) = 1 THEN {RandomElement(1..n)} ELSE {})
+      src == [j \in 1..n |-> IF j \in P THEN d ELSE RandomElement(BigIds \ {d})]
+      near == [j \in 1..n |-> IF RandomElement(1..4) = 1 THEN <<0, szs[src[j]]>> ELSE <<src[j], 0>>]
+      dupl == [j \in 1..RandomElement(32..52) |-> <<d, 0>>]
+      prior == CASE (i \div 6) % 3 = 0 -> near \o dupl
+                 [] (i \div 6) % 3 = 1 -> dupl \o near
+                 [] OTHER -> SubSeq(dupl, 1, 20) \o near \o SubSeq(dupl, 21, Len(dupl))
+  IN [sz |-> szs, src |-> src, prior |-> prior, seeds |-> <<>>, inplace |-> TRUE, big |-> i]
+BigScen == {IF i % 6 = 5 THEN DupOne(i) ELSE BigOne(i) : i \in 1..NBig}
 \* the same sampled layouts as initial states of the clone machine: the Planner transcription and the executor are
 \* model-checked on long cycles and deep chains too (exhaustive over the sampled initial states)
 InitBig == /\ \E b \in BigScen : sc = [sz |-> b.sz, src |-> b.src, prior |-> b.prior, seeds |-> b.seeds, inplace |-> TRUE, scan |-> {}]
@@ -35,6 +49,11 @@ InitBig == /\ \E b \in BigScen : sc = [sz |-> b.sz, src |-> b.src, prior |-> b.p
            /\ scan = {} /\ rem = [id \in IdsOf(sc) |-> {}] /\ mem = <<>> /\ plan = <<>> /\ cur = NoCur
            /\ seedpos = <<1, 1>> /\ fetch = <<>> /\ phase = "start" /\ run = 1
            /\ written = {} /\ fetched = {} /\ bad = ""
+\* the layouts of the exhaustive family in which one chunk has several destinations and is held by the prior output (one read, several writes;
+\* destinations that may overlap the place it is read from) - the sub-family that is replayed with units of MBs (Select = "multidest")
+MultiDest(s) == \E id \in {s.src[i] : i \in 1..Len(s.src)} :
+                  /\ Cardinality({i \in 1..Len(s.src) : s.src[i] = id}) >= 2
+                  /\ \E j \in 1..Len(s.prior) : s.prior[j][1] = id
 VARIABLE x
 InitBigX == InitBig /\ x = 0
 NextBigX == Next /\ UNCHANGED x
@@ -42,6 +61,7 @@ GInit == /\ x = 0 /\ sc = 0 /\ out = 0 /\ scan = 0 /\ rem = 0 /\ mem = 0 /\ plan
          /\ fetch = 0 /\ phase = 0 /\ run = 0 /\ written = 0 /\ fetched = 0 /\ bad = 0
 GNext == UNCHANGED <<x, vars>>
 Post == /\ TLCGet("stats").diameter >= 0
-        /\ ndJsonSerialize(IOEnv.GEN_OUT, IF NBig > 0 THEN SetToSeq(BigScen) ELSE SetToSeq(GenScen))
-        /\ PrintT(<<"GENERATED", IF NBig > 0 THEN Cardinality(BigScen) ELSE Cardinality(GenScen)>>)
+        /\ LET S == IF NBig > 0 THEN BigScen ELSE IF Select = "multidest" THEN {s \in GenScen : MultiDest(s)} ELSE GenScen IN
+           /\ ndJsonSerialize(IOEnv.GEN_OUT, SetToSeq(S))
+           /\ PrintT(<<"GENERATED", Cardinality(S)>>)
 =============================================================================
